@@ -37,7 +37,8 @@ ASSUMPTIONS = [
     "model follows the tree WITH proposed_fixes/C13-S4-S6.patch; on the unfixed tree the labelled injections "
     "`implements_object` (S4), `bad_name_input_field` (S6) and names with a trailing newline (S7) are reported as property failures",
     "`field.resolver = f` / `schema.default_resolver = f` assigned directly are outside the statement (not re-validated); not generated in histories",
-    "_replace_types_and_directives is exercised with single-entry maps only (multi-entry: busted_cache overwritten, ledger T3, C14)",
+    "model follows the tree WITH proposed_fixes/C13-T3b.patch (refusals of _replace_types_and_directives before any mutation, directives bust the caches); "
+    "what fix_type_references removes after a DELETION is taken from the live object (`healed`), not modelled",
 ]
 TRUSTED = [
     "py2lean.py translation of Schema.is_subtype (isinstance(GraphQLAbstractType/ObjectType) and is_possible_type as parameters)",
@@ -699,6 +700,160 @@ def touched_type(inj, pos):
     return None
 
 
+
+# ---------------------------------------------------------------------------------------------
+# shrinking (only runs on failures)
+# ---------------------------------------------------------------------------------------------
+
+def failure_class(verdict, errs, labels):
+    """None = the labelled expectation holds; else a short class name."""
+    rules = Counter(r for r, _ in errs)
+    expected = Counter(r for _, r in labels if r)
+    if verdict.startswith("internal"):
+        return verdict
+    if not expected:
+        return None if verdict == "valid" else "rejected:" + "+".join(sorted(rules))
+    if verdict == "valid":
+        return "accepted"
+    missing = expected - rules
+    return ("missing:" + "+".join(sorted(missing))) if missing else None
+
+
+def smaller_descs(d):
+    """Descriptions one step smaller than `d` (removing one element / one wrapper / one resolver)."""
+    def without(path_fn):
+        c = copy.deepcopy(d)
+        path_fn(c)
+        return c
+    for i, t in reversed(list(enumerate(d["types"]))):
+        if t["name"] != d.get("query"):
+            yield without(lambda c, i=i: c["types"].pop(i))
+    for i in range(len(d["directives"])):
+        yield without(lambda c, i=i: c["directives"].pop(i))
+    for key in ("mutation", "subscription", "default_resolver"):
+        if d.get(key):
+            yield without(lambda c, key=key: c.__setitem__(key, None))
+    for i, t in enumerate(d["types"]):
+        for key in ("fields", "values", "members", "interfaces"):
+            for j in range(len(t.get(key) or [])):
+                yield without(lambda c, i=i, key=key, j=j: c["types"][i][key].pop(j))
+        if t.get("default_resolver"):
+            yield without(lambda c, i=i: c["types"][i].__setitem__("default_resolver", None))
+        if t["kind"] in ("object", "interface"):
+            for j, f in enumerate(t["fields"]):
+                for k in range(len(f.get("args") or [])):
+                    yield without(lambda c, i=i, j=j, k=k: c["types"][i]["fields"][j]["args"].pop(k))
+                if f.get("resolver") is not None:
+                    yield without(lambda c, i=i, j=j: c["types"][i]["fields"][j].__setitem__("resolver", None))
+                if f["type"][0] != "named":
+                    yield without(lambda c, i=i, j=j: c["types"][i]["fields"][j].__setitem__("type", c["types"][i]["fields"][j]["type"][1]))
+                elif f["type"][1] not in ("Int",) and kind_of(d, f["type"][1]) != "input":
+                    yield without(lambda c, i=i, j=j: c["types"][i]["fields"][j].__setitem__("type", ("named", "Int")))
+    for i, dd in enumerate(d["directives"]):
+        for k in range(len(dd.get("args") or [])):
+            yield without(lambda c, i=i, k=k: c["directives"][i]["args"].pop(k))
+
+
+def quiet_build(builder, desc):
+    try:
+        return builder(desc)
+    except BaseException as e:  # noqa  (anything: the candidate is simply not usable)
+        if isinstance(e, (KeyboardInterrupt, SystemExit)):
+            raise
+        return None
+
+
+def model_guard(ctx, labels):
+    """A candidate is only kept if the MODEL (independent of validation.py) still sees what the labels say:
+    the injected rules are violated / the schema is valid. None when the model cannot be asked."""
+    if not ctx.model_ok or ctx.broken_obligations:
+        return None
+    expected = Counter(r for _, r in labels if r)
+
+    def guard(schema):
+        try:
+            ans = ctx.driver.ask([{"op": "validate", "schema": dump(schema)}])[0]
+        except Exception:  # noqa
+            return False
+        rules = Counter(e["rule"] for e in ans.get("errors", []))
+        return (not (expected - rules)) if expected else ans.get("valid") is True
+    return guard
+
+
+def shrink_desc(builder, desc, labels, cls, guard, budget=300):
+    """Greedy one-step reduction keeping the failure class AND the labelled fact (guard). Returns (desc, steps)."""
+    cur, steps = desc, 0
+    if guard is None:
+        return cur, 0
+    progress = True
+    while progress and budget > 0:
+        progress = False
+        for cand in smaller_descs(cur):
+            budget -= 1
+            if budget <= 0:
+                break
+            s = quiet_build(builder, cand)
+            if s is None:
+                continue
+            v, e = real_validate(s)
+            if failure_class(v, e, labels) == cls and guard(s):
+                cur, steps, progress = cand, steps + 1, True
+                break
+    return cur, steps
+
+
+def shape_of(desc):
+    """Minimal structural feature of a shrunk description: kinds present (user types) with member counts."""
+    parts = []
+    for t in desc["types"]:
+        n = len(t.get("fields") or t.get("values") or t.get("members") or [])
+        parts.append("%s%d%s" % (t["kind"][:3], n, "i%d" % len(t["interfaces"]) if t.get("interfaces") else ""))
+    return ",".join(sorted(parts)) + (";d%d" % len(desc["directives"]) if desc["directives"] else "")
+
+
+def shrink_history(builder, desc, ops):
+    """Drop operations while a validate() still accepts a schema that a fresh validation rejects."""
+    def stale(ops_):
+        s = quiet_build(builder, desc)
+        if s is None:
+            return None
+        try:
+            trace, _ = run_history_real(s, ops_)
+        except Exception:  # noqa
+            return None
+        for idx, (o, t) in enumerate(zip(ops_, trace)):
+            if o["op"] == "validate" and t["outcome"] == "ok" and t["fresh_valid"] is False:
+                return idx, trace
+        return None
+    cur = list(ops)
+    progress = True
+    while progress:
+        progress = False
+        for i in range(len(cur)):
+            cand = cur[:i] + cur[i + 1:]
+            if cand and stale(cand) is not None:
+                cur, progress = cand, True
+                break
+        if not progress:
+            # shrink the entries of replace requests
+            for i, o in enumerate(cur):
+                if o["op"] != "replace_types":
+                    continue
+                for key in ("entries", "dir_entries"):
+                    for j in range(len(o.get(key) or [])):
+                        o2 = dict(o)
+                        o2[key] = o[key][:j] + o[key][j + 1:]
+                        cand = cur[:i] + [o2] + cur[i + 1:]
+                        if stale(cand) is not None:
+                            cur, progress = cand, True
+                            break
+                    if progress:
+                        break
+                if progress:
+                    break
+    r = stale(cur)
+    return (cur, r[0], r[1]) if r else (list(ops), None, None)
+
 # ---------------------------------------------------------------------------------------------
 # one case: build, run the real validator, compare with the labels and with the model
 # ---------------------------------------------------------------------------------------------
@@ -750,19 +905,42 @@ def check_schema(ctx, batch, schema, labels, how, info, desc=None):
               "real": {"verdict": verdict, "errors": canon_errs(errs)}}
     if desc is not None:
         detail["desc"] = desc
-    if verdict.startswith("internal"):
-        ctx.fail("validator-raises:%s:%s" % (verdict, sig_of(labels)), "validate_schema raises something else than SchemaValidationError", detail)
-    elif not expected:
-        if verdict != "valid":
-            ctx.fail("valid-schema-rejected:%s:%s" % (sig_of(labels), "+".join(sorted(rules))),
+    cls = failure_class(verdict, errs, labels)
+    if cls is not None:
+        builder = {"code": build_code, "sdl": build_sdl, "perm": build_code}.get(how)
+        flabels = labels
+        if cls.startswith("missing:"):
+            miss = set(cls[len("missing:"):].split("+"))
+            flabels = [l for l in labels if l[1] in miss]
+        elif cls == "accepted":
+            flabels = sorted(set(l for l in labels if l[1]))
+        else:
+            flabels = []
+        pre_sig = (cls, tuple(map(tuple, flabels)), how)
+        seen_sigs = ctx.extra.setdefault("_shrunk", set())
+        if desc is not None and builder is not None and pre_sig not in seen_sigs:
+            seen_sigs.add(pre_sig)
+            # shrink: keep only the labels that fail, then reduce the description while the class stays
+            small, steps = shrink_desc(builder, desc, [tuple(l) for l in flabels], cls, model_guard(ctx, flabels))
+            s2 = quiet_build(builder, small)
+            if s2 is not None and steps:
+                v2, e2 = real_validate(s2)
+                detail = {"how": how, "labels": flabels, "info": info, "desc": small, "shrunk_steps": steps,
+                          "schema": dump(s2), "real": {"verdict": v2, "errors": canon_errs(e2)}}
+            else:
+                detail = dict(detail, labels=flabels)
+            shp = shape_of(detail.get("desc") or desc) if steps else "unshrunk"
+        else:
+            shp = "unshrunk"
+        if cls.startswith("internal"):
+            ctx.fail("validator-raises:%s:%s" % (cls, shp), "validate_schema raises something else than SchemaValidationError", detail)
+        elif cls.startswith("rejected:"):
+            ctx.fail("valid-schema-rejected:%s:%s" % (cls[len("rejected:"):], shp),
                      "a schema satisfying the type-system rules is rejected", detail)
-    else:
-        missing = expected - rules
-        if verdict == "valid":
-            ctx.fail("violation-accepted:%s" % sig_of(sorted(set(l for l in labels if l[1]))),
-                     "a schema breaking an implemented rule is accepted", detail)
-        elif missing:
-            ctx.fail("violation-not-reported:%s" % sig_of([l for l in labels if l[1] in missing]),
+        elif cls == "accepted":
+            ctx.fail("violation-accepted:%s" % sig_of(flabels), "a schema breaking an implemented rule is accepted", detail)
+        else:
+            ctx.fail("violation-not-reported:%s" % sig_of(flabels),
                      "rejected, but an injected violation has no error attributable to its rule (not all reported together)", detail)
     if any(r.startswith("?") for r in rules):
         ctx.fail("corr:unattributed-message", "an error message matches no extracted format string", detail, kind="correspondence")
@@ -1093,9 +1271,19 @@ def gen_history(rng, desc, length):
                 fn = "nope"
             ops.append({"op": "register_subscription", "type": tn, "field": fn, "sig": sig, "allow_override": rng.random() < 0.5, "reuse": False})
         else:
-            cand = [x for x in desc["types"] if x["kind"] in ("object", "interface", "input", "enum")]
-            x = rng.choice(cand)
-            ops.append({"op": "replace_types", "type": x["name"], "mode": rng.choice(["same", "copy", "copy_bad", "copy_bad"])})
+            cand = [x["name"] for x in desc["types"] if x["kind"] in ("object", "interface", "input", "enum")]
+            k = rng.choice([1, 1, 2, 2, 3])
+            names = rng.sample(cand, min(k, len(cand)))
+            entries = [{"type": n, "mode": rng.choice(["same", "same", "copy", "copy_bad", "copy_bad", "delete", "other_kind"])}
+                       for n in names]
+            if rng.random() < 0.08:
+                entries.insert(rng.randint(0, len(entries)), {"type": rng.choice(["Int", "__Type", "Nope"]), "mode": "other_kind"})
+            dnames = [d["name"] for d in desc["directives"]]
+            dir_entries = []
+            if rng.random() < 0.35:
+                for n in rng.sample(dnames + ["newdir", "skip"], rng.choice([1, 1, 2])):
+                    dir_entries.append({"name": n, "mode": rng.choice(["same", "copy_bad", "copy", "delete"])})
+            ops.append({"op": "replace_types", "entries": entries, "dir_entries": dir_entries})
     ops.append({"op": "validate"})
     return ops
 
@@ -1106,6 +1294,7 @@ def run_history_real(schema, ops):
     from py_gql.schema import ObjectType
     trace, mops = [], []
     last_fn = {}
+    nomodel = False
     for op in ops:
         k = op["op"]
         outcome = "ok"
@@ -1133,23 +1322,58 @@ def run_history_real(schema, ops):
                 mop.update({"type": op["type"], "resolver": canon_schema.dump_resolver(fn), "allow_override": op["allow_override"]})
                 schema.register_default_resolver(op["type"], fn, allow_override=op["allow_override"])
             elif k == "replace_types":
-                orig = schema.types[op["type"]]
-                if op["mode"] == "same":
-                    new = orig
-                else:
-                    new = copy.copy(orig)
-                    if op["mode"] == "copy_bad":
-                        from py_gql.schema import Field, InputField, EnumType, EnumValue, Int, InputObjectType
-                        if isinstance(new, EnumType):
-                            new = EnumType(orig.name, list(orig.values) + [EnumValue("__bad%d" % len(orig.values))])
-                        elif isinstance(new, InputObjectType):
-                            new.fields = list(orig.fields) + [InputField("dup_in", lambda: schema.types["Query"])]
-                        else:
-                            new.fields = list(orig.fields) + [Field("__bad", Int)]
-                entry = canon_schema.dump_type(new, True)
-                entry["builtin"] = False
-                mop.update({"entries": [{"name": op["type"], "type": entry, "same": new is orig}]})
-                schema._replace_types_and_directives({op["type"]: new})
+                from py_gql.schema import (Field, InputField, EnumType, EnumValue, Int, InputObjectType, InterfaceType,
+                                           Directive, Argument)
+                types, mentries, deleting = {}, [], False
+                for e in op["entries"]:
+                    orig = schema.types.get(e["type"])
+                    mode = e["mode"]
+                    if orig is None or mode == "other_kind":
+                        new = (InterfaceType if isinstance(orig, ObjectType) else ObjectType)(e["type"], [Field("a", Int)])
+                    elif mode == "same":
+                        new = orig
+                    elif mode == "delete":
+                        new = None
+                        deleting = True
+                    else:
+                        new = copy.copy(orig)
+                        if mode == "copy_bad":
+                            if isinstance(new, EnumType):
+                                new = EnumType(orig.name, list(orig.values) + [EnumValue("__bad%d" % len(orig.values))])
+                            elif isinstance(new, InputObjectType):
+                                new.fields = list(orig.fields) + [InputField("dup_in", lambda: schema.types["Query"])]
+                            else:
+                                new.fields = list(orig.fields) + [Field("__bad", Int)]
+                    types[e["type"]] = new
+                    entry = None
+                    if new is not None:
+                        entry = canon_schema.dump_type(new, True)
+                        entry["builtin"] = False
+                    mentries.append({"name": e["type"], "type": entry, "same": new is orig})
+                dirs, mdirs = {}, []
+                for e in op.get("dir_entries", []):
+                    orig = schema.directives.get(e["name"])
+                    mode = e["mode"]
+                    if mode == "delete" and orig is not None:
+                        new = None
+                    elif mode == "same" and orig is not None:
+                        new = orig
+                    elif mode == "copy_bad":
+                        new = Directive(e["name"], ["FIELD"], [Argument("__x", Int)])
+                    else:
+                        new = Directive(e["name"], ["FIELD"], [Argument("x", Int)])
+                    dirs[e["name"]] = new
+                    dd = None
+                    if new is not None:
+                        dd = {"name": new.name, "locations": list(new.locations), "args": [canon_schema.dump_arg(a) for a in new.arguments], "desc": None}
+                    mdirs.append({"name": e["name"], "directive": dd, "same": new is orig})
+                mop.update({"entries": mentries, "dir_entries": mdirs})
+                try:
+                    schema._replace_types_and_directives(types, dirs)
+                finally:
+                    pass
+                if deleting:
+                    mop["healed"] = dump(schema)
         except SchemaValidationError:
             outcome = "SchemaValidationError"
         except UnknownType:
@@ -1160,14 +1384,40 @@ def run_history_real(schema, ops):
             outcome = "ValueError"
         except Exception as e:  # noqa
             outcome = "internal:" + type(e).__name__
+        if k == "replace_types" and outcome.startswith("internal"):
+            # healing after deletions is C14's subject: the history ends here
+            trace.append({"outcome": outcome, "cached": schema._is_valid is True, "fresh_valid": None})
+            mops.append(mop)
+            break
+        if k == "replace_types" and outcome != "ok" and not _REPLACE_ATOMIC[0]:
+            # a half-applied request leaves stale object references that the by-name dump cannot show:
+            # the model comparison ends with this step, the direct oracle goes on
+            nomodel = True
+        if nomodel:
+            trace.append({"outcome": outcome, "cached": schema._is_valid is True,
+                          "fresh_valid": real_validate(schema)[0] == "valid", "nomodel": True})
+            mops.append(mop)
+            continue
         fresh_valid = real_validate(schema)[0] == "valid"
         trace.append({"outcome": outcome, "cached": schema._is_valid is True, "fresh_valid": fresh_valid})
         mops.append(mop)
     return trace, mops
 
 
+_REPLACE_ATOMIC = [True]
+
+
+def op_sig(op, t):
+    if op["op"] != "replace_types":
+        return op["op"]
+    return "replace_types[%s%s]%s" % (",".join(sorted(e["mode"] for e in op["entries"])),
+                                      (";dir:" + ",".join(sorted(e["mode"] for e in op["dir_entries"]))) if op.get("dir_entries") else "",
+                                      "" if t["outcome"] == "ok" else ":" + t["outcome"])
+
+
 def stream_histories(ctx, batch):
     rng = ctx.rng
+    _REPLACE_ATOMIC[0] = X.replace_flags()[1]
     n = ctx.n(120, 1200)
     for i in range(n):
         if ctx.time_left() < 12:
@@ -1182,6 +1432,10 @@ def stream_histories(ctx, batch):
         if s is None:
             continue
         ops = gen_history(rng, base, rng.randint(2, 8))
+        if rng.random() < 0.3:
+            rep = [o for o in ops if o["op"] == "replace_types"] or [o for o in gen_history(rng, base, 12) if o["op"] == "replace_types"]
+            if rep:
+                ops = [{"op": "validate"}, rep[0], {"op": "validate"}]
         start = dump(s)
         cached0 = s._is_valid is True      # build_schema validates while building
         trace, mops = run_history_real(s, ops)
@@ -1195,17 +1449,31 @@ def stream_histories(ctx, batch):
                   "ops": ops, "trace": trace}
         # direct oracle: validate() returned (cached or not) on a schema a fresh validation rejects
         for idx, (o, t) in enumerate(zip(ops, trace)):
-            if t["outcome"].startswith("internal"):
+            if t["outcome"].startswith("internal") and o["op"] == "replace_types":
+                ctx.stat("replace-internal:" + t["outcome"])
+            elif t["outcome"].startswith("internal"):
                 ctx.fail("history-op-raises:%s:%s" % (o["op"], t["outcome"]), "a registration raises an undocumented exception", detail)
-            if o["op"] == "validate" and t["outcome"] == "ok" and not t["fresh_valid"]:
-                prev = [a["op"] for a in ops[:idx] if a["op"] != "validate"]
-                ctx.fail("stale-verdict-after:%s" % (prev[-1] if prev else "nothing"),
-                         "validate() accepts although the current schema is invalid (verdict not recomputed)", dict(detail, at=idx))
+            if o["op"] == "validate" and t["outcome"] == "ok" and t["fresh_valid"] is False:
+                sops, sidx, strace = shrink_history(builder, detail["desc"], ops)
+                if sidx is None:
+                    sops, sidx, strace = ops, idx, trace
+                prev = [(a, tt) for a, tt in zip(sops[:sidx], strace[:sidx]) if a["op"] != "validate"]
+                ctx.fail("stale-verdict-after:%s" % (op_sig(*prev[-1]) if prev else "nothing"),
+                         "validate() accepts although the current schema is invalid (verdict not recomputed)",
+                         dict(detail, ops=sops, trace=strace, at=sidx, shrunk_from=len(ops)))
                 break
 
         def cont(ans, trace=trace, detail=detail, ops=ops):
             mt = ans.get("trace", [])
             for idx, (a, b) in enumerate(zip(trace, mt)):
+                if a["fresh_valid"] is None:
+                    break
+                if a.get("nomodel"):
+                    if (a["outcome"], a["cached"]) != (b["outcome"], b["cached"]):
+                        d2 = dict(detail)
+                        d2["model_trace"] = mt
+                        ctx.fail("corr:history:%s" % ops[idx]["op"], "cache machine and Schema differ (outcome / _is_valid)", d2, kind="correspondence")
+                    break
                 if a != b:
                     d2 = dict(detail)
                     d2["model_trace"] = mt
@@ -1248,6 +1516,7 @@ def run(ctx):
     stream_histories(ctx, batch)
     stream_valid_and_injected(ctx, batch)
     batch.flush()
+    ctx.extra.pop("_shrunk", None)
     if not X.fix_applied():
         ctx.notes.append("proposed fix C13-S4-S6 is NOT in the tree under test: S4/S6 injections are expected to fail")
 
@@ -1287,7 +1556,7 @@ def replay(ctx, data):
     if how == "history":
         s = (build_code if inp.get("builder") == "build_code" else build_sdl)(desc)
         trace, _ = run_history_real(s, inp["ops"])
-        return not any(o["op"] == "validate" and t["outcome"] == "ok" and not t["fresh_valid"] for o, t in zip(inp["ops"], trace))
+        return not any(o["op"] == "validate" and t["outcome"] == "ok" and t["fresh_valid"] is False for o, t in zip(inp["ops"], trace))
     if how.startswith("perm"):
         b = build_code if "build_code" in how else (lambda d, o: build_sdl(d, o + list(range(len(o), gs.n_definitions(d)))))
         va = real_validate(b(desc, inp["order_a"]))[0]
